@@ -293,7 +293,8 @@ def run_check(pid, mod, tier, seed, t0):
         log("[gen]", m)
 
     # 2. build + obligations
-    targets = [mod.PROPS_FILE[:-2] + ".vo", mod.CORR_VO]
+    extra_props = list(getattr(mod, "EXTRA_PROPS", ()))
+    targets = [mod.PROPS_FILE[:-2] + ".vo", mod.CORR_VO] + [f[:-2] + ".vo" for f in extra_props]
     if tier == "thorough":
         # rebuild the property's own files from scratch
         for t in targets:
@@ -313,6 +314,15 @@ def run_check(pid, mod, tier, seed, t0):
     for h in hygiene:
         log("[hygiene] forbidden construct:", h)
     obs, compiled, ob_log = obligations(mod.PROPS_FILE) if tie_ok else ([], False, "translator failed")
+    # further files of obligations, compiled separately: a tie theorem that breaks (an edited function in the
+    # repository) must not un-discharge the theorems it has nothing to do with
+    for f in (extra_props if tie_ok else []):
+        o2, c2, l2 = obligations(f)
+        if not o2:
+            o2 = [{"name": "(no theorem found in %s)" % f, "discharged": False, "assumptions": None}]
+        obs += o2
+        if not c2:
+            ob_log += "\n--- %s ---\n%s" % (f, l2)
     if tie_ok and not obs:
         obs = [{"name": "(no theorem found in %s)" % mod.PROPS_FILE, "discharged": False, "assumptions": None}]
     if hygiene:
@@ -487,7 +497,7 @@ def run_check(pid, mod, tier, seed, t0):
         "print_assumptions": {o["name"]: ("Closed under the global context" if o["assumptions"] == [] else
                                           ("not compiled" if o["assumptions"] is None else o["assumptions"])) for o in obs},
         "checker_cmd": "cd coq && make %s && coqc -Q . Curtsies %s   (Print Assumptions under every theorem%s)" % (
-            " ".join(targets), mod.PROPS_FILE, "; coqchk -o in this run" if coqchk_out else ""),
+            " ".join(targets), " ".join([mod.PROPS_FILE] + extra_props), "; coqchk -o in this run" if coqchk_out else ""),
         "trusted_base": list(mod.TRUSTED),
         "evaluations": evaluations,
         "distinct_nontrivial": len(nontrivial_keys),
